@@ -529,6 +529,15 @@ fn resolve_regions(
     }
     let mut resolved = Regions::default();
 
+    // Wait until every field's type has been resolved: whether a vftable pointer is needed
+    // depends on the first base, and padding is computed from the sizes of the earlier fields.
+    if regions
+        .iter()
+        .any(|(_, region)| region.size(&semantic.type_registry).is_none())
+    {
+        return Ok(None);
+    }
+
     // Create vftable
     let first_base = regions.iter().map(|t| &t.1).find(|r| r.is_base);
     let (vftable, vftable_region) = vftable::build(
